@@ -26,6 +26,22 @@ CHECKS['C14'] = dict(cat='proof', ref='DESIGN.md section 3 C14',
     text='Hoare-style proof of the real adaptive arm of integrate(): invariant over a ghost accepted trajectory (each accepted step is the two-half-step map, contiguous, strictly advancing, inside [ts[0], ts[-1]], ends at ts[-1]); per-trial obligations (accept iff err<=1 or step<=dt_min, rejected => state unchanged and strictly smaller step >= dt_min, trial length >= dt_min or clipped, three Brownian queries); update_step_size and compute_error proved against their contracts.',
     note='T1; pow(x,a) uninterpreted with monotonicity axioms (T5); termination reduced to proved progress facts; "tighter tolerances reduce true error" not decided',
     tech=TECH.format(engine='z3 (nonlinear reals, quantified ghost arrays)'))
+CHECKS['C03'] = dict(cat='proof', ref='DESIGN.md section 3 C03',
+    text='Heap-level Hoare proofs of the real _split_exact/_split/_loc_inner/_loc/__call__ (z3, quantified heap invariants) with a ghost Brownian path carried as a data-structure invariant; split identities proved from the bridge formulas extracted from the real source; __call__ postcondition W = Wc(tb)-Wc(ta), U = V(tb)-V(ta)-(tb-ta)Wc(ta) for every well-formed tree, cache state and mode; Chen relation and the reversed-path contract as z3 lemmas.',
+    note='T1,T2,T5 (round axioms),T6; generic element (W,H,U element-wise); partial correctness (termination in C07); in-range queries at resolved times; Levy-area merge is dimension-bounded',
+    tech=TECH.format(engine='z3 over a symbolic heap (arrays + guarded quantifiers), case split at seams, hypothesis slicing with explicit instances, finite-scope refuter'))
+CHECKS['C10'] = dict(cat='proof', ref='DESIGN.md section 3 C10',
+    text='Per step: the real AdjointReversibleHeun.step reconstructs the forward step inputs and returns exactly J^T times the incoming adjoints, J obtained by differentiating the symbolic result of the real ReversibleHeun.step (all four noise types; B,d,m in {(1,1,1),(2,2,2)}). Bounded stand-in: real _SdeintAdjointMethod.forward/backward vs backprop through the real integrate on 3 output times / 4 steps.',
+    note='T1,T3 (autograd = formal differentiation),T6,T7; step proofs are dimension-bounded; the end-to-end check is bounded and not counted as proved',
+    tech=TECH.format(engine='exact polynomial normal form with derivative atoms (Taylor-mode autograd model)'))
+CHECKS['C11'] = dict(cat='proof', ref='DESIGN.md section 3 C11',
+    text='Every vector field of the real AdjointSDE (f, g_prod, f_and_g_prod, g_prod_and_gdg_prod; 2x4 dispatch table) equals the oracle derived mechanically from the property (Stratonovich form, reverse-time adjoint system, Ito back-conversion) for generic smooth f, g; graph discipline (no graph without grad, derivative-correct with grad); unused parameters get zero; forward functions evaluated at -t.',
+    note='T1,T3,T6,T7; dimension-bounded (B,d,m) in {(1,1,1),(2,2,2)}; known finding: derivative of the Milstein-adjoint correction under grad mode',
+    tech=TECH.format(engine='exact polynomial normal form with derivative atoms (Taylor-mode autograd model)'))
+CHECKS['C15'] = dict(cat='proof', ref='DESIGN.md section 3 C15',
+    text='The real ReversibleHeun.step executed on abstract tensors (module over scalars, bilinear prod, uninterpreted f, g) from an arbitrary consistent carried state, then again on the negated time-reversed SDE through the real ReverseBrownian: returns exactly the original (y0, -f0, -g0, z0). All batch/state/noise sizes, all four noise types.',
+    note='T1 (rounding / stability), T6, T7',
+    tech=TECH.format(engine='exact polynomial normal form over tensor atoms (A domain)'))
 REASONS = {}
 checks = []
 for p in props:
